@@ -38,7 +38,9 @@ def _spec(draw, tier):
     w = gens.shape_width(leaf["s"])
     n = draw(st.integers(5, 60 if tier == "quick" else 100))
     cycles = draw(st.lists(_cycle(w), min_size=n, max_size=n))
-    return {"leaf": leaf, "cycles": cycles}
+    return {"leaf": leaf, "cycles": cycles,
+            # the Field object already created this many other actions; the action class is a trivial user subclass
+            "nth_create": draw(st.sampled_from([0, 0, 0, 1, 2])), "subclass": draw(st.sampled_from([False, False, True]))}
 
 
 def components_actions():
@@ -74,7 +76,12 @@ def check(spec, stats):
     stats.label("a:" + a if not a.startswith("Res") else "reserved")
     stats.label("shape:" + s[0])
     stats.label("width>64", w > 64)
-    act = gens.make_field(leaf).create()
+    field = gens.make_field(leaf, spec.get("subclass", False))
+    for _ in range(spec.get("nth_create", 0)):
+        field.create()
+    stats.label("field_object_reused", bool(spec.get("nth_create")))
+    stats.label("action_subclass", bool(spec.get("subclass")))
+    act = field.create()
     init = gens.init_value(s, leaf.get("init") or 0) & m if (a in STORAGE and (leaf.get("init") is not None
                                                                            or s[0] in ("arr", "struct"))) else 0
     if a in STORAGE:
